@@ -275,7 +275,18 @@ Qed.
 
 Variable instr : string -> bool.
 Variable lit_ok : string -> bool.
-Notation rw := (rw instr lit_ok).
+(** Bare calls of methods "allowed without callee" are outside the theorem: their rewriting reads the callee identifier
+    after the argument has been evaluated, which an adversarial world tells apart (Properties/C01.v, C01_bare_call_refuted). *)
+Variable awc : string -> bool.
+Hypothesis no_awc : forall f, awc f = false.
+Notation rw := (rw instr lit_ok awc).
+
+Lemma rw_calle_eq f a c :
+  rw (CallE f a) c = let '(f', c1) := rw f c in let '(a', c2) := rw a c1 in (CallE f' a', c2).
+Proof.
+  cbn [Sem.rw]. destruct (rw f c) as [f' c1]. destruct (rw a c1) as [a' c2].
+  destruct f'; try reflexivity. rewrite no_awc. reflexivity.
+Qed.
 
 Lemma rw_optm0_eq o m c :
   rw (OptMCall0 o m) c =
@@ -358,7 +369,7 @@ Proof.
         -- destruct P2 as [P2 | P2]; [discriminate P2 | exact P2].
     + destruct Hk as [Hk | (a & b & Hk)]; [congruence | exfalso; eapply NA; exact Hk].
   - (* CallE *)
-    simpl in Hk. destruct (rw e1 c) as [f' c1]. destruct (rw e2 c1) as [a' c2]. simpl in Hk.
+    rewrite rw_calle_eq in Hk. destruct (rw e1 c) as [f' c1]. destruct (rw e2 c1) as [a' c2]. simpl in Hk.
     destruct Hk as [Hk | (a & b & Hk)]; discriminate.
   - (* Par *)
     simpl in Hk. destruct (rw e c) as [x' c1]. simpl in Hk.
@@ -573,7 +584,7 @@ Proof.
         try rewrite hook_pure by (apply PA; repeat constructor; auto); apply E.
   - (* CallE : congruence *)
     destruct Hs as [Hl Hr].
-    pose proof (IHe1 Hl c) as I1. simpl. destruct (rw e1 c) as [l' c1] eqn:Rl. simpl in I1.
+    pose proof (IHe1 Hl c) as I1. rewrite rw_calle_eq. destruct (rw e1 c) as [l' c1] eqn:Rl. simpl in I1.
     pose proof (IHe2 Hr c1) as I2. destruct (rw e2 c1) as [r' c2] eqn:Rr. simpl in I2.
     assert (Hc1 : c <= c1) by (destruct (I1 h t); auto).
     assert (Hc2 : c1 <= c2) by (destruct (I2 h t); auto).
